@@ -441,6 +441,18 @@ func checkC09(c *Ctx) {
 	// concurrently: the lock-free protocols of the handles themselves (shared with C01 O2/O3 and C02 O2)
 	c.shared(checkC02, map[string]string{"O2 delivery": "O5 gauge-protocol", "O2 update-order": "O5 gauge-protocol", "O2 raise-after-store": "O5 gauge-protocol", "O4 flag-writers": "O5 gauge-protocol"})
 	c.shared(checkC01, map[string]string{"O2 delta-rmw": "O5 counter-protocol", "O3 delivery": "O5 counter-protocol"})
+	// what a handle delegates to is fixed when the handle is built (a lazily filled field is written while
+	// other goroutines record through the handle: a race, and values recorded meanwhile take the fallback
+	// path) - shared with C08 O5; the object inserted into the map is the object the cached pass walks
+	// (shared with C01 O6 / C02 O6)
+	c.checkSetOnlyAtConstruction("O6 handles-fixed", "", "histogram", "samples", "buckets", "specification", "htype")
+	c.checkSetOnlyAtConstruction("O6 handles-fixed", "", "sampleCounter", "counter", "cachedBucket")
+	c.checkSetOnlyAtConstruction("O6 handles-fixed", "", "counter", "cachedCount")
+	c.checkSetOnlyAtConstruction("O6 handles-fixed", "", "gauge", "cachedGauge")
+	c.checkSetOnlyAtConstruction("O6 handles-fixed", "", "timer", "cachedTimer", "name", "tags")
+	c.checkSliceSibling("O6 slice-sibling", "counters", "countersSlice")
+	c.checkSliceSibling("O6 slice-sibling", "histograms", "histogramsSlice")
+	c.checkSliceSibling("O6 slice-sibling", "gauges", "gaugesSlice")
 	_ = token.NoPos
 }
 
